@@ -88,6 +88,56 @@ impl StructProg {
     }
 }
 
+/// The same program with member types (variant "member") or array element types (variant "element") of the root
+/// struct written through WGSL `alias` declarations. naga gives such a type the alias name; the Rust struct must not
+/// change.
+pub fn alias_variants(p: &StructProg) -> Vec<StructProg> {
+    let mut out = vec![];
+    let root = p.env.get(&p.root);
+    let at = match p.src.find(&format!("struct {} {{", p.root)) {
+        Some(a) => a,
+        None => return out,
+    };
+    for variant in ["member", "element"] {
+        let mut aliases = String::new();
+        let (head, tail) = p.src.split_at(at);
+        let mut body = tail.to_string();
+        let mut n = 0;
+        for (i, m) in root.members.iter().enumerate() {
+            let line = format!("{}: {},", m.name, m.ty.wgsl());
+            let replaced = match (variant, &m.ty) {
+                ("member", Ty::Struct(_)) => None,
+                ("member", t) => {
+                    aliases.push_str(&format!("alias Al{i}T = {};\n", t.wgsl()));
+                    Some(format!("{}: Al{i}T,", m.name))
+                }
+                ("element", Ty::Array(e, k)) if !matches!(**e, Ty::Struct(_)) => {
+                    aliases.push_str(&format!("alias El{i}T = {};\n", e.wgsl()));
+                    Some(format!("{}: array<El{i}T, {k}>,", m.name))
+                }
+                ("element", Ty::RtArray(e)) if !matches!(**e, Ty::Struct(_)) => {
+                    aliases.push_str(&format!("alias El{i}T = {};\n", e.wgsl()));
+                    Some(format!("{}: array<El{i}T>,", m.name))
+                }
+                _ => None,
+            };
+            if let Some(r) = replaced {
+                if body.contains(&line) {
+                    body = body.replacen(&line, &r, 1);
+                    n += 1;
+                }
+            }
+        }
+        if n > 0 {
+            let mut q = p.clone();
+            q.src = format!("{aliases}{head}{body}");
+            q.key = format!("alias-{variant}|{}", p.key);
+            out.push(q);
+        }
+    }
+    out
+}
+
 pub fn make_prog(members: Vec<Member>, space: &'static str, key: String) -> StructProg {
     let mut env = base_env();
     env.add(StructDef { name: "Root".into(), members });
